@@ -263,6 +263,8 @@ Example C18_ex_grid_flat :
   undigits_F [2; 3]%nat [1; 2]%nat = 5%nat.
 Proof. split; [reflexivity|]. split; [repeat constructor|reflexivity]. Qed.
 Example C18_ex_cdf :
-  map (fun z => cdf OQc [q 3 1; q 1 1; q 2 1; q 2 1] z) [q 0 1; q 1 1; q 2 1; q 5 2; q 3 1; q 4 1]
-  = map Ok [q 0 1; q 1 4; q 3 4; q 3 4; q 1 1; q 1 1].
-Proof. vm_compute. reflexivity. Qed.
+  map (fun z => rmap (fun v : Qc => this v) (cdf OQc [q 3 1; q 1 1; q 2 1; q 2 1] z))
+      [q 0 1; q 1 1; q 2 1; q 5 2; q 3 1; q 4 1]
+  = map Ok [0; 1 # 4; 3 # 4; 3 # 4; 1; 1]%Q /\
+  cdf OQc [] (q 0 1) = Err OtherError.
+Proof. split; vm_compute; reflexivity. Qed.
